@@ -137,8 +137,14 @@ static void do_op(void)
     /* OPSET 0: all; 1: enqueue/dequeue/remove only; 2: reprioritize-heavy; 3: pattern ops */
     static const int sets[4][9] = { {0, 1, 2, 3, 4, 5, 6, 7, 8}, {0, 1, 2, 0, 1, 2, 0, 1, 2}, {0, 3, 3, 1, 2, 3, 0, 3, 1}, {0, 5, 6, 5, 6, 2, 7, 8, 6} };
     static const int nset[4] = { 9, 3, 4, 5 };
+#ifdef OPSEQ
+    static const int opseq[] = OPSEQ;          /* a fixed operation sequence instead of a choice per step */
+    static int seqpos;
+    int op = opseq[seqpos++];
+#else
     uint64_t c = sym_choice(nset[OPSET], "op");
     int op = OPSET == 0 ? (int)c : OPSET == 1 ? (int)c : OPSET == 2 ? (int[]){0, 3, 1, 2}[c] : (int[]){0, 5, 6, 7, 8}[c];
+#endif
     (void)sets;
     sym_note("op", (uint64_t)op);
     switch (op) {
